@@ -12,7 +12,11 @@ pub const POPULATION_LIMIT: f64 = 100_000.0;
 
 /// CDF tolerance envelope of the dependency (statrs 0.18 inverse t CDF), DESIGN §4.3
 pub fn cdf_tol_t(dof: f64) -> f64 {
-    8.0 * (2e-14 + 1.5e-15 * dof * dof)
+    // Build note: the design-round envelope 8 (2e-14 + 1.5e-15 dof^2) described statrs' raw inverse CDF. Since fix
+    // f739aa7 the crate polishes the quantile with Newton steps on statrs' *CDF*, whose own error grows only
+    // linearly in dof (t is mapped to x = dof/(dof+t^2), relative error ~ eps in 1-x): measured through C06 on the
+    // repaired tree 1.5e-13 (dof < 1e2), 4e-13 (< 1e3), 6e-12 (< 1e4), 2e-11 (< 3e4), 7e-11 (< 1e5).
+    8.0 * (2e-14 + 1e-15 * dof)
 }
 /// The envelope at a given critical value: statrs recovers t from x = dof/(dof + t^2), i.e. t^2 carries an
 /// absolute error of about dof * eta with eta the relative tolerance of its incomplete-beta inversion. For
@@ -22,7 +26,9 @@ pub fn cdf_tol_t(dof: f64) -> f64 {
 /// eta = 4e-13 is used. At t = 0 exactly the quantile is exact.
 pub fn cdf_tol_t_at(dof: f64, c: f64) -> f64 {
     let eta = 4e-13;
-    let extra = if c == 0.0 { 0.0 } else { 0.4 * (dof * eta / (2.0 * c.abs())).min((dof * eta).sqrt()) };
+    // (at c = 0 the first branch is infinite and the square-root branch applies: for large dof the dependency
+    // returns exactly 0 for probabilities within ~sqrt(dof eta) of 1/2)
+    let extra = 0.4 * if c == 0.0 { (dof * eta).sqrt() } else { (dof * eta / (2.0 * c.abs())).min((dof * eta).sqrt()) };
     cdf_tol_t(dof) + extra
 }
 pub const CDF_TOL_Z: f64 = 2e-15;
@@ -43,7 +49,10 @@ pub fn crit_t(dof: f64, conf: &Conf) -> Crit {
 pub fn crit_z(conf: &Conf) -> Crit {
     let p = conf.target();
     let c = rm::norm_quantile(p);
-    Crit { c, dc: CDF_TOL_Z / rm::norm_pdf(c) + 4e-16 * c.abs(), normal: true }
+    // a probability below 1/2 is given to relative precision; one above 1/2 only to ulp(1): the allowance on p is
+    // 16 eps p in the lower tail and CDF_TOL_Z otherwise
+    let dp = if p < 0.5 { (16.0 * f64::EPSILON * p).min(CDF_TOL_Z) } else { CDF_TOL_Z };
+    Crit { c, dc: dp / rm::norm_pdf(c) + 4e-16 * c.abs(), normal: true }
 }
 /// the branch the documentation prescribes for this dof (t below the limit, z at or above it)
 pub fn crit(dof: f64, conf: &Conf) -> Crit {
